@@ -131,4 +131,16 @@ theorem warnings_count (f : Facts) (p : J) (ms : List J) (r : J × List Mixin.Wa
     obtain ⟨h1, h2, h3, h4, h5⟩ := hdk m hm
     exact ⟨h1, h2, h3, h4, h5⟩
 
+/-- with no mixin the primary comes back as it was (only a missing / null `paths` becomes the empty object, as
+    `initPrimary` does), and nothing is reported -/
+theorem no_mixins_identity (f : Facts) (p : J) :
+    Mixin.mixin f p [] = .ok (Mixin.initPrimary p, []) := by
+  simp [Mixin.mixin, Mixin.steps]
+
+/-- … and a primary that has a `paths` object is returned unchanged -/
+theorem no_mixins_unchanged (f : Facts) (p : J) (kvs : List (String × J)) (h : p.get? "paths" = some (.obj kvs)) :
+    Mixin.mixin f p [] = .ok (p, []) := by
+  rw [no_mixins_identity]
+  simp [Mixin.initPrimary, h]
+
 end C17
